@@ -298,6 +298,75 @@ type AuditCM struct {
 	callMu sync.Mutex
 	// Perturb, if set, is called before every mutating call (schedule noise).
 	Perturb func()
+	// Watch: reads of these block ids (State, Block) are recorded together with
+	// whether they came from an RPC handler; set before the syncer starts.
+	Watch map[types.BlockID]bool
+	// HandlerDelay delays recorded reads that come from an RPC handler (it widens
+	// the window between "message fully read" and "verdict reached").
+	HandlerDelay time.Duration
+	rmu          sync.Mutex
+	reads        []ReadHit
+}
+
+// A ReadHit is one recorded read-only manager call.
+type ReadHit struct {
+	Kind      string
+	ID        types.BlockID
+	InHandler bool
+	At        int64 // unix nanoseconds
+}
+
+func (a *AuditCM) noteRead(kind string, id types.BlockID, always bool) {
+	if !always && !a.Watch[id] {
+		return
+	}
+	inH := strings.Contains(string(debug.Stack()), "syncer.(*Syncer).handleRPC")
+	a.rmu.Lock()
+	if len(a.reads) < 4096 {
+		a.reads = append(a.reads, ReadHit{kind, id, inH, time.Now().UnixNano()})
+	}
+	a.rmu.Unlock()
+	if inH && a.HandlerDelay > 0 {
+		time.Sleep(a.HandlerDelay)
+	}
+}
+
+// HandlerReads counts recorded reads of the given kind (and id, unless zero)
+// issued by an RPC handler at or after since (unix nanoseconds).
+func (a *AuditCM) HandlerReads(kind string, id types.BlockID, since int64) int {
+	a.rmu.Lock()
+	defer a.rmu.Unlock()
+	n := 0
+	for _, h := range a.reads {
+		if h.InHandler && h.Kind == kind && h.At >= since && (id == (types.BlockID{}) || h.ID == id) {
+			n++
+		}
+	}
+	return n
+}
+
+// State implements syncer.ChainManager.
+func (a *AuditCM) State(id types.BlockID) (consensus.State, bool) {
+	if a.Watch != nil {
+		a.noteRead("State", id, false)
+	}
+	return a.Manager.State(id)
+}
+
+// Block implements syncer.ChainManager.
+func (a *AuditCM) Block(id types.BlockID) (types.Block, bool) {
+	if a.Watch != nil {
+		a.noteRead("Block", id, false)
+	}
+	return a.Manager.Block(id)
+}
+
+// TransactionsForPartialBlock implements syncer.ChainManager.
+func (a *AuditCM) TransactionsForPartialBlock(missing []types.Hash256) ([]types.Transaction, []types.V2Transaction) {
+	if a.Watch != nil {
+		a.noteRead("TransactionsForPartialBlock", types.BlockID{}, true)
+	}
+	return a.Manager.TransactionsForPartialBlock(missing)
 }
 
 // guard runs fn and reports a panic together with whether it was raised
